@@ -4,6 +4,7 @@
     [Print Assumptions].  The model is the code after fixes/F3, F4, F15, F21. *)
 From Coq Require Import ZArith List Bool String.
 From Verif Require Import AdmitTotal.Base AdmitTotal.Model AdmitTotal.Theorems AdmitTotal.Sites Gen.PanicSites.
+From Verif Require Import AdmitTotal.State AdmitTotal.ProofsState1 AdmitTotal.ProofsState2 AdmitTotal.ProofsState4 AdmitTotal.ProofsState5 AdmitTotal.TheoremsState.
 Import ListNotations.
 
 (** types.Tx.Validate (mempool.verifyTx, and the first step of chain.executeTx) terminates with
@@ -59,6 +60,61 @@ Theorem C14_enterprise_state_wf_preserved :
   ent_wf rpc_parts ev' = true.
 Proof. exact enterprise_state_wf_preserved. Qed.
 Print Assumptions C14_enterprise_state_wf_preserved.
+
+(** The storage invariant [Inv] (every stored staking, proposal-vote, vote-result-list and
+    name-map record is an output of its serialiser with short components; enterprise confs well
+    formed) is preserved by every executed governance transaction and by block boundaries.
+    [step] requires the records written to be shorter than 2^32 bytes ([upd_small]). *)
+Theorem C14_storage_invariant_preserved :
+  forall to_upper decode_address encode_address b58 parse_big allowed_name list_entry_ok rpc_parts rpc_b64_ok
+         rpc_has_w cc_peer_ok cc_addr_ok cc_hex_ok b58dec jmarshal junmarshal,
+  (forall c, junmarshal (jmarshal [JStr c]) = Some [c]) ->
+  (forall x a, decode_address x = Some a -> small a) ->
+  forall g g',
+  Inv rpc_parts junmarshal g ->
+  step to_upper decode_address encode_address b58 parse_big allowed_name list_entry_ok rpc_parts rpc_b64_ok
+       rpc_has_w cc_peer_ok cc_addr_ok cc_hex_ok b58dec jmarshal junmarshal g g' ->
+  Inv rpc_parts junmarshal g'.
+Proof. exact inv_preserved. Qed.
+Print Assumptions C14_storage_invariant_preserved.
+
+(** Admission never panics on any state reachable from the genesis storage by executed
+    governance transactions: no well-formedness assumption on the state is left. *)
+Theorem C14_reachable_validate_total :
+  forall to_upper decode_address encode_address b58 parse_big allowed_name list_entry_ok rpc_parts rpc_b64_ok
+         rpc_has_w cc_peer_ok cc_addr_ok cc_hex_ok b58dec jmarshal junmarshal,
+  (forall c, junmarshal (jmarshal [JStr c]) = Some [c]) ->
+  (forall x a, decode_address x = Some a -> small a) ->
+  forall bp_list ent0 g acct se e t p,
+  result_ok false bp_list -> ent_wf rpc_parts ent0 = true ->
+  reachable to_upper decode_address encode_address b58 parse_big allowed_name list_entry_ok rpc_parts rpc_b64_ok
+            rpc_has_w cc_peer_ok cc_addr_ok cc_hex_ok b58dec jmarshal junmarshal (genesis bp_list ent0) g ->
+  admission to_upper decode_address encode_address b58 parse_big allowed_name list_entry_ok rpc_parts rpc_b64_ok
+            rpc_has_w cc_peer_ok cc_addr_ok cc_hex_ok e t (state_of g acct se) <> Panic p.
+Proof. exact reachable_validate_total. Qed.
+Print Assumptions C14_reachable_validate_total.
+
+(** On every reachable state executeTx never panics in validation / argument handling, and the
+    whole execution of a system transaction including cmd.run (vote tally load, SubVote, AddVote,
+    Sync, refreshAllVote, record writes) can panic at one site only: the nil *big.Int that
+    [voteResult.rmap[v]] yields in SubVote when a recorded vote names a candidate absent from the
+    stored tally (the one assumption that remains; the engine runs the real code there). *)
+Theorem C14_reachable_executes :
+  forall to_upper decode_address encode_address b58 parse_big allowed_name list_entry_ok rpc_parts rpc_b64_ok
+         rpc_has_w cc_peer_ok cc_addr_ok cc_hex_ok b58dec jmarshal junmarshal,
+  (forall c, junmarshal (jmarshal [JStr c]) = Some [c]) ->
+  (forall x a, decode_address x = Some a -> small a) ->
+  forall bp_list ent0 g acct se e t,
+  result_ok false bp_list -> ent_wf rpc_parts ent0 = true ->
+  reachable to_upper decode_address encode_address b58 parse_big allowed_name list_entry_ok rpc_parts rpc_b64_ok
+            rpc_has_w cc_peer_ok cc_addr_ok cc_hex_ok b58dec jmarshal junmarshal (genesis bp_list ent0) g ->
+  (forall p, exec_gov to_upper decode_address encode_address b58 parse_big allowed_name list_entry_ok rpc_parts
+               rpc_b64_ok rpc_has_w cc_peer_ok cc_addr_ok cc_hex_ok e t (state_of g acct se) <> Panic p) /\
+  (forall p, exec_system_full to_upper decode_address encode_address b58 parse_big allowed_name list_entry_ok
+               rpc_parts rpc_b64_ok rpc_has_w cc_peer_ok cc_addr_ok cc_hex_ok b58dec jmarshal junmarshal
+               e t g acct se = Panic p -> p = rmap_site).
+Proof. exact reachable_executes. Qed.
+Print Assumptions C14_reachable_executes.
 
 (** Every index / slice / single-value assertion / explicit panic found by gen_panicsites in the
     current source tree is one the model accounts for (Sites.model_sites). *)
